@@ -1247,11 +1247,33 @@ DCTORS = {"TypeErr": ("mkTypeErr", 1), "KeyErrs": ("mkKeyErrs", 1), "Invalid": (
 
 
 class DTr:
+    def __init__(self, param: str = "data", target_attr: str = "") -> None:
+        self.param, self.target_attr = param, target_attr
+
     def exp(self, e: ast.expr) -> str:
+        if self.target_attr:
+            src = ast.unparse(e)
+            if src == f"self.{self.target_attr}":
+                return "(.selfAttr .targetCls)"
+            if src == "{dict, self.%s}" % self.target_attr:
+                return ".dictOrCls"
+            if isinstance(e, ast.Compare) and len(e.ops) == 1 and isinstance(e.ops[0], ast.Is) and \
+                    ast.unparse(e.comparators[0]) == f"self.{self.target_attr}" and isinstance(e.left, ast.Call) and \
+                    isinstance(e.left.func, ast.Name) and e.left.func.id == "type" and len(e.left.args) == 1:
+                return f"(.typeIs {self.exp(e.left.args[0])} (.selfAttr .targetCls))"
+            if isinstance(e, ast.Call) and ast.unparse(e.func) == f"self.{self.target_attr}" and not e.args and \
+                    len(e.keywords) == 1 and e.keywords[0].arg is None:
+                return f"(.construct {self.exp(e.keywords[0].value)})"
+            if isinstance(e, ast.Call) and isinstance(e.func, ast.Name) and e.func.id == "_dataclass_instance_to_dict" and \
+                    len(e.args) == 1 and not e.keywords:
+                return f"(.instToDict {self.exp(e.args[0])})"
+            if isinstance(e, ast.Call) and isinstance(e.func, ast.Attribute) and e.func.attr == "_asdict" and not e.args and \
+                    not e.keywords:
+                return f"(.instToDict {self.exp(e.func.value)})"
         if isinstance(e, ast.Name):
             if e.id == "self":
                 return ".self"
-            if e.id == "data":
+            if e.id == self.param:
                 return ".data"
             if e.id == "dict":
                 return ".dictTy"
@@ -1381,8 +1403,27 @@ def render_dictany() -> str:
               and isinstance(m, ast.AsyncFunctionDef) == meth.endswith("_async"))
         term = DTr().block(m.body) if ok else '[.unsupported "not found / signature"]'
         lines += [f"def {name} : List DStmt :=", f"  {term}", ""]
+    # DataclassValidator / NamedTupleValidator: the same language (the parameter is called `val`)
+    for fn, cls, attr, name in (("dataclasses.py", "DataclassValidator", "data_cls", "dataclass"),
+                                ("namedtuple.py", "NamedTupleValidator", "named_tuple_cls", "namedTuple")):
+        for meth, suffix in (("_validate_to_tuple", "Sync"), ("_validate_to_tuple_async", "Async")):
+            m = _find_method(fn, cls, meth)
+            ok = (m is not None and [a.arg for a in m.args.args] == ["self", "val"] and not m.decorator_list
+                  and isinstance(m, ast.AsyncFunctionDef) == meth.endswith("_async"))
+            term = DTr("val", attr).block(m.body) if ok else '[.unsupported "not found / signature"]'
+            lines += [f"def {name}{suffix} : List DStmt :=", f"  {term}", ""]
+    m = _find_function("dataclasses.py", "_dataclass_instance_to_dict")
+    lines += ["def instanceToDict : String := " + lstr(" ; ".join(ast.unparse(b).replace("\n", " ") for b in m.body) if m else "<not found>"), ""]
     lines += ["end Koda.Src", ""]
     return "\n".join(lines)
+
+
+def _find_function(fn: str, name: str):
+    tree = ast.parse(open(os.path.join(PKG, fn)).read())
+    for node in tree.body:
+        if isinstance(node, ast.FunctionDef) and node.name == name:
+            return node
+    return None
 
 
 def render() -> str:
